@@ -8,10 +8,12 @@ CONSTANTS
   EpPOST <- RtPOST
   EpPUT <- RtPUT
   EpDEL <- RtDEL
+  SiteHooks = {"site_bool", "site_none", "site_zero", "site_estr", "site_elist"}
 INVARIANT C19_Jail
 INVARIANT C19_StillServes
 INVARIANT StaticConforms
 INVARIANT RefJail
 INVARIANT C19_NoCommandForStrangers
 INVARIANT C19_HookFailClosed
+INVARIANT AccessConforms
 CHECK_DEADLOCK FALSE
